@@ -102,6 +102,12 @@ def error_class(err: str, code: str = "") -> str:
     return err.split(":")[1].strip() if err.count(":") >= 2 else "other"
 
 
+def _reject_reason(err: str) -> str:
+    if any(t in err for t in ("list.min_items", "list.max_items", "too_short", "too_long")):
+        return "item_count"
+    return "other"
+
+
 def eval_pair(task: tuple) -> dict:
     """one (document, style): baseline vs every variant, on the instance corpus of the document"""
     doc, style, variants = task
@@ -152,6 +158,8 @@ def eval_pair(task: tuple) -> dict:
                             "direction": "variant_looser" if vv else "variant_stricter",
                             "mcause": m.cause if m else "none",
                             "error": error_class(str(v.validate(inst)[1])) if not vv and "MODEL-ERROR" in str(v.validate(inst)[1]) else "none",
+                            # why the stricter side rejects: an item-count complaint, or something else
+                            "vreason": _reject_reason(str((v if bv else base).validate(inst)[1])) if vv != bv else "none",
                         }
                         out["failures"].append((cls, {**inp, "instance": inst}, f"baseline {'accepts' if bv else 'rejects'}, --{name} {'accepts' if vv else 'rejects'}; variant code:\n{v.code[-500:]}"))
                 for n in top_names:
